@@ -100,6 +100,7 @@ type Result struct {
 	Panics    []PanicInfo `json:"panics,omitempty"`
 	Threads   int         `json:"threads"`
 	Overrun   bool        `json:"overrun,omitempty"`
+	BadChoice bool        `json:"bad_choice,omitempty"` // a prescribed choice did not exist: the replayed prefix diverged
 	Points    int         `json:"points"`
 	Contended int         `json:"contended"` // steps at which some unfinished thread was not enabled
 }
@@ -316,6 +317,7 @@ type shadow struct {
 	rw    map[uintptr]*rwState
 	wg    map[uintptr]int
 	label map[uintptr]int
+	tried map[uintptr]bool // mutexes on which TryLock has been used in this execution
 }
 
 func (s *shadow) lab(o uintptr) int {
@@ -386,6 +388,7 @@ func (s *shadow) apply(t *Thread, op Op) {
 		}
 		delete(s.mu, op.Obj)
 	case OpTryLock:
+		s.tried[op.Obj] = true
 		_, held := s.mu[op.Obj]
 		setTry(t, !held)
 		if !held {
@@ -422,9 +425,11 @@ func (s *shadow) apply(t *Thread, op Op) {
 	}
 }
 
-func choicePoint(k Kind) bool {
-	switch k {
-	case OpUnlock, OpWUnlock, OpRUnlock, OpWgAdd, OpSpawn:
+func (s *shadow) choicePoint(op Op) bool {
+	switch op.Kind {
+	case OpUnlock:
+		return s.tried[op.Obj] // releasing a lock that others probe with TryLock: they may run while it is still held
+	case OpWUnlock, OpRUnlock, OpWgAdd, OpSpawn:
 		return false
 	}
 	return true
@@ -442,7 +447,7 @@ func Run(choices []int, bodies []func()) *Result {
 		harnessf("GOMAXPROCS must be 1")
 	}
 	res := &Result{}
-	sh := &shadow{mu: map[uintptr]int{}, rw: map[uintptr]*rwState{}, wg: map[uintptr]int{}, label: map[uintptr]int{}}
+	sh := &shadow{mu: map[uintptr]int{}, rw: map[uintptr]*rwState{}, wg: map[uintptr]int{}, label: map[uintptr]int{}, tried: map[uintptr]bool{}}
 	beginExec()
 	var threads []*Thread
 	adopt := func(t *Thread) {
@@ -467,7 +472,7 @@ func Run(choices []int, bodies []func()) *Result {
 		// non-choice operation of the running thread: apply and continue it
 		if cur >= 0 {
 			op, fin := readPending(threads[cur])
-			if !fin && !choicePoint(op.Kind) {
+			if !fin && !sh.choicePoint(op) {
 				t := threads[cur]
 				if op.Kind == OpSpawn {
 					adopt(op.nt)
@@ -518,7 +523,9 @@ func Run(choices []int, bodies []func()) *Result {
 		if ci < len(choices) {
 			c = choices[ci]
 			if c < 0 || c >= len(en) {
-				harnessf("choice %d out of range at point %d (enabled %v)", c, ci, en)
+				// only possible when the program is not deterministic under the schedule (the explorer checks for that)
+				res.BadChoice = true
+				c = 0
 			}
 		}
 		ci++
